@@ -335,14 +335,18 @@ func (en *DefaultEngine) runFirst(ctx context.Context) (bool, error) {
 	logg.DebugCtxf(ctx, "start pre-VM check")
 	// the check runs on a cache of its own and must not disturb the position and the last value of a resumed session
 	idx := en.st.SizeIdx
+	levels := len(en.st.ExecPath)
 	defer func() {
+		// a failing check may have gone further down (error catch)
+		for len(en.st.ExecPath) > levels {
+			en.st.Up()
+		}
 		en.st.SizeIdx = idx
 	}()
 	ca := cache.NewCache()
 	rs := resource.NewMenuResource()
 	rs.AddLocalFunc("_first", en.first)
 	en.st.Down("_first")
-	defer en.st.Up()
 	defer en.st.ResetFlag(state.FLAG_TERMINATE)
 	defer en.st.ResetFlag(state.FLAG_DIRTY)
 	pvm := vm.NewVm(en.st, rs, ca, nil)
